@@ -95,7 +95,7 @@ def handle (fn : String) : Handler := fun a impl =>
       if kind == "sample_ternary" then
         if moduli.all (· > 2) then relSpec impl (rnsConsistent 1 moduli c n) "ternary: same value in {-1,0,1} in every component" else "ANY"
       else if kind == "sample_cbd" then
-        -- claimed for every modulus >= 2 (component = v mod q_j); moduli <= 21 are a known finding (q_j - |e| underflows)
+        -- claimed for every modulus >= 2 (component = v mod q_j), also for moduli not above the error bound 21
         if moduli.all (· ≥ 2) then relSpec impl (rnsConsistent 21 moduli c n) "error: same value of magnitude <= 21 in every component" else "ANY"
       else relSpec impl (belowModuli moduli c n) "uniform: below each modulus"
     some (model, spec)
